@@ -8,14 +8,14 @@ import dslgen
 
 FAULT_CLASSES = ["dup_packet", "dup_meta", "dup_option", "unknown_option", "bad_option_value", "dup_field", "dup_match_key",
                  "second_root", "length_outside_root", "length_twice", "unknown_packet_ref", "unknown_key", "unknown_length_target",
-                 "unknown_match_target", "typeless_unknown_meta", "forward_meta_ref"]
+                 "unknown_match_target", "typeless_unknown_meta", "forward_meta_ref", "length_after_target"]
 
 EXPECT_MSG = {
     "dup_packet": "Duplicate packet definition", "dup_meta": "Duplicate metadata definition", "dup_option": "is already defined",
     "unknown_option": "is not allowed in this context", "bad_option_value": "is not allowed to be", "dup_field": "uplicate field",
     "dup_match_key": "Duplicate match key", "second_root": "Multiple root packets", "length_outside_root": "only be declared in the root",
     "length_twice": "Duplicate LengthOfField", "unknown_packet_ref": "Unknown packet type", "unknown_key": "nknown",
-    "unknown_length_target": "nknown", "unknown_match_target": "nknown", "typeless_unknown_meta": "Unknown MetaData type", "forward_meta_ref": "Unknown MetaData type",
+    "unknown_length_target": "nknown", "unknown_match_target": "nknown", "typeless_unknown_meta": "Unknown MetaData type", "forward_meta_ref": "Unknown MetaData type", "length_after_target": "must be declared after",
 }
 
 
@@ -176,6 +176,17 @@ def inject(text, cls, rng):
         a, b, n, _ = rng.choice(pk)
         L.insert(b, "    Nope%d ZzRef," % rng.randint(1, 9))
         return "\n".join(L) + "\n", b + 1
+    if cls == "length_after_target":
+        # a length field behind the member it measures (root packet without a length field; the last member is the target)
+        roots = [p for p in pk if p[3]]
+        if not roots or any("@lengthOf(" in l for l in L) or roots[0][1] - roots[0][0] < 2:
+            return None
+        a, b, n, _ = roots[0]
+        m = re.match(r"    (?:repeat )?(?:[\w\[\]]+ )?(\w+)( `[^`]*`)?,$", L[b - 1])
+        if not m or L[b - 1].strip().startswith(("}", "@")):
+            return None
+        L.insert(b, "    u16 ZzLen @lengthOf(%s)," % m.group(1))
+        return "\n".join(L) + "\n", b + 1
     if cls == "forward_meta_ref":
         # a reference entry placed BEFORE the entry it names (same block): entries are registered in text order
         idx = [i for i, l in enumerate(L) if l.startswith("MetaData ")]
@@ -280,6 +291,7 @@ CRASH_PROBES = [
     ("unknown-len-target", "root packet P {\n    u16 l @lengthOf(zz),\n    u8 a,\n}\n"),
     ("len-target-scalar", "root packet P {\n    u16 l @lengthOf(a),\n    u8 a,\n}\n"),
     ("len-target-string", "root packet P {\n    u16 l @lengthOf(a),\n    string a,\n}\n"),
+    ("len-after-target", "root packet P {\n    u8 k,\n    match k as b {\n        1 : Q,\n    },\n    u16 l @lengthOf(b),\n}\npacket Q {\n}\n"),
     ("len-self", "root packet P {\n    u16 l @lengthOf(l),\n}\n"),
     ("match-in-inline", "root packet P {\n    G {\n        u8 k,\n        match k as m {\n            1 : Q,\n        },\n    },\n}\npacket Q {\n}\n"),
     ("len-in-inline", "root packet P {\n    G {\n        u16 l @lengthOf(b),\n        u8 b,\n    },\n}\n"),
